@@ -225,12 +225,21 @@ def write_replay(mod, seed, tape, result, viol, tier, minimised_evals=None):
         "event_digest": result.get("digest"),
         "minimisation_evals": minimised_evals,
         "repo_head": _repo_head(),
+        "verif_head": _verif_head(),
+        "note": "a replay tape is interpreted by the generators of the /verif commit named in verif_head; the rendered case below documents the failing input independently of it",
     }
     h = hashlib.sha256(json.dumps([viol["clause"], viol.get("sig", {}), tape], sort_keys=True, default=repr).encode()).hexdigest()[:8]
     path = os.path.join(d, "%d-%s.json" % (seed, h))
     with open(path, "w") as f:
         json.dump(body, f, indent=1, default=repr)
     return path
+
+
+def _verif_head():
+    try:
+        return subprocess.run(["git", "-C", VERIF, "rev-parse", "--short", "HEAD"], capture_output=True, text=True, timeout=10).stdout.strip()
+    except Exception:  # noqa: BLE001
+        return "unknown"
 
 
 def _repo_head():
